@@ -73,6 +73,7 @@ class RealResult(object):
         self.child_dumps = {}       # {child k: {'self': dump, 'parent': dump}} right after k was made by NewChild (init_dump=True); filled
                                     # on the CHILD's result; dump = {'mem', 'all_globals', 'table', 'mem_bytes', 'bound'}
         self.child_of = None        # parent instance when this instance was made by NewChild
+        self.func_exports = "absent"  # rows of instance.common.funcExports at the end: {'rows': [[func index, name hex]], 'terminated'} | None (NULL)
         self.messages = []
         self.build = []             # command lines
         self.ub = None              # first line of a sanitizer report
@@ -303,6 +304,7 @@ def gen_main(module, name, header_text, script, imports_spec=None, instances=1, 
         dumps.append("    dumpTable(k, &imptab%d[k]);" % timp[0])
     elif module.tables:
         dumps.append("    if (INST(k).%s.data != NULL || INST(k).%s.size == 0) dumpTable(k, &INST(k).%s);" % ((h.tables[0][1],) * 3))
+    dumps.append("    dumpFuncExports(k, %d);" % (len(module.exports) + 2))
     # memory 0
     mimp = [n for n, i in enumerate(module.imports) if i.kind == "memory"]
     acc = None
@@ -330,11 +332,18 @@ def gen_main(module, name, header_text, script, imports_spec=None, instances=1, 
             raise E2EError("call %d: %d args for %d params" % (cn, len(args), len(sig.params)))
         argl = "".join(", " + lit(t, b) for (t, b) in args)
         call = "%s(&INST(%d)%s)" % (cname, ins, argl)
+        pre = ""
+        if cn % 2 == 1 and 0 not in ename:
+            # every other call goes through the name table <module>FuncExports (lookup by name, call through the row's pointer), the
+            # others through the <module>_<name> symbol: both must reach the exported function
+            ptype = "%s (*)(void*%s)" % (CT[sig.results[0]] if sig.results else "void", "".join(", " + CT[t] for t in sig.params))
+            pre = 'wasmFunc lk = lookupExport(%d, %s); if (lk == NULL) { OUT("r %d nolookup\\n"); } else ' % (ins, c_string(ename), cn)
+            call = "((%s)lk)((void*)&INST(%d)%s)" % (ptype, ins, argl)
         if sig.results:
             f, a = show(sig.results[0], "r")
-            stmt = '%s r = %s; OUT("r %d val %s\\n", %s);' % (CT[sig.results[0]], call, cn, f, a)
+            stmt = '%s{ %s r = %s; OUT("r %d val %s\\n", %s); }' % (pre, CT[sig.results[0]], call, cn, f, a)
         else:
-            stmt = '%s; OUT("r %d val\\n");' % (call, cn)
+            stmt = '%s{ %s; OUT("r %d val\\n"); }' % (pre, call, cn)
         for ck in sorted(children):
             if children[ck][1] == cn:
                 calls.append("  newChild(%d, %d);" % (ck, children[ck][0]))
@@ -391,6 +400,22 @@ def first_san_line(stderr):
     return None
 
 
+def parse_func_exports(ws):
+    """`<func index>:=<hex name>… end:<0|1>` | `null` -> {'rows': [[func index, name hex | None]], 'terminated': bool} | None"""
+    if ws == ["null"]:
+        return None
+    rows = []
+    for t in ws[:-1]:
+        i, _, nm = t.partition(":")
+        rows.append([int(i), nm[1:] if nm.startswith("=") else None])
+    return {"rows": rows, "terminated": ws[-1] == "end:1"}
+
+
+def expected_func_exports(module):
+    """rows of <module>FuncExports per the documentation: every function export, in export order, (function index, name)"""
+    return [[e.index, bytes(e.name).hex()] for e in module.exports if e.kind == "func"]
+
+
 def parse_output(out, module, instances, ncalls, script, rundir, keep_mem=False):
     rs = [RealResult() for _ in range(instances)]
     per_call = {}
@@ -426,6 +451,8 @@ def parse_output(out, module, instances, ncalls, script, rundir, keep_mem=False)
                 dd["mem"] = {"sha256": hashlib.sha256(data).hexdigest(), "pages": int(w[2])}
                 dd["mem_bytes"] = data if keep_mem else None
             continue
+        if phase in ("init", "child", "prechild") and w[0] == "x":
+            continue
         if phase == "init" and w[0] in ("b", "g", "t", "m"):
             if w[0] == "g":
                 t, b = w[3].split(":")
@@ -456,6 +483,8 @@ def parse_output(out, module, instances, ncalls, script, rundir, keep_mem=False)
                 per_call[cn] = ("val", [(a.split(":")[0], int(a.split(":")[1], 16)) for a in w[3:]])
             elif w[2] == "trap":
                 per_call[cn] = ("trap", TRAP_CLASS.get(int(w[3]), "trap%s" % w[3]))
+            elif w[2] == "nolookup":
+                per_call[cn] = ("nolookup", "the export is not in <module>FuncExports")
             else:
                 per_call[cn] = ("skip",)
         elif w[0] == "b":
@@ -476,6 +505,8 @@ def parse_output(out, module, instances, ncalls, script, rundir, keep_mem=False)
             r.mem_accessor_ok = {"1": True, "0": False}.get(w[3])
             if keep_mem:
                 r.mem_bytes = data
+        elif w[0] == "x":
+            rs[int(w[1])].func_exports = parse_func_exports(w[2:])
         elif w[0] == "done":
             done = True
         elif w[0] == "err":
